@@ -1,7 +1,9 @@
 /-
   Driver for C07. Line = "input<TAB>implObs", see harness/props/c07/c07.go.
 
-  input  := (n (raft entry) sched)         entry := - | (raw idx)
+  input  := (n (raft entry) sched [route]) entry := - | (raw idx)
+  route  := (svc k)                        which local.Service object caller c goes through (c mod k);
+                                           the model is blind to it: every caller runs the protocol itself
   sched  := ((r c) | (w c) | (e c) | (f raw) | (d) | (x c))*
   obs    := (calls store)
   calls  := ((c status start end reqs) …)  for c = 0..n-1
@@ -87,7 +89,11 @@ def parseCall : SExp → Option CallObs
     let refused := reqs.any fun
       | .list [.atom "put", _, _, .atom "false"] => true
       | _ => false
-    pure { caller := (← c.nat?), ok := ok, started := t.nat?.getD 0, ended := t'.nat?.getD 0, refused := refused }
+    let wrote := reqs.any fun
+      | .list [.atom "put", _, _, .atom "true"] => true
+      | _ => false
+    pure { caller := (← c.nat?), ok := ok, started := t.nat?.getD 0, ended := t'.nat?.getD 0, refused := refused,
+           wrote := wrote }
   | _ => none
 
 /-! ### environment-level stream -/
@@ -135,15 +141,21 @@ def processEnv (inp impl : String) : String :=
       | none => false            -- a panic or an unparsable observation is never accepted
     s!"{model}\t{if spec then 1 else 0}\t-"
 
+/-- The optional fourth element of a protocol input. -/
+def routeOk : List SExp → Bool
+  | [] => true
+  | [.list [.atom "svc", k]] => match k.nat? with | some k => 1 ≤ k && k ≤ 4 | none => false
+  | _ => false
+
 def processLine (line : String) : String :=
   match SExp.fields line with
   | [inp, impl] =>
     match SExp.parse inp with
     | some (.list [.list _, .list _, _]) => processEnv inp impl
-    | some (.list [n, st, .list steps]) =>
+    | some (.list (n :: st :: .list steps :: route)) =>
       match n.nat?, parseStore st, steps.mapM? parseStep with
       | some n, some st, some sched =>
-        if !(decide st.WF) then "BADINPUT\t0\t-" else
+        if !(decide st.WF) || !routeOk route then "BADINPUT\t0\t-" else
         let p := codeProto
         let s := run p sched (init st)
         let model := obsSx n s
@@ -158,7 +170,7 @@ def processLine (line : String) : String :=
           | none => (false, "-")
           | some cs =>
             if SpecObs fm st.level cs then (true, "-")
-            else if refusedIsErr cs && fm && !nw then (false, "uint32_wrap")
+            else if refusedIsErr cs && ownWriteB cs && fm && !nw then (false, "uint32_wrap")
             else (false, "-")
         s!"{model}\t{if spec then 1 else 0}\t{hyp}"
       | _, _, _ => "BADINPUT\t0\t-"
